@@ -32,6 +32,8 @@ import (
 
 	. "verifharness/hx"
 
+	"github.com/NibiruChain/nibiru/v2/app"
+
 	inflationtypes "github.com/NibiruChain/nibiru/v2/x/inflation/types"
 	oracletypes "github.com/NibiruChain/nibiru/v2/x/oracle/types"
 	sudotypes "github.com/NibiruChain/nibiru/v2/x/sudo/types"
@@ -61,6 +63,10 @@ type c16Grant struct {
 }
 
 type c16Case struct {
+	// Genesis: the sudoers come from a sudo GENESIS section of a fresh chain (InitChain stores the
+	// contracts list as given: any order, duplicates) instead of the sorted duplicate-free form
+	// every EditSudoers write produces
+	Genesis   bool       `json:"genesis,omitempty"`
 	Root      int        `json:"root"`
 	Contracts []int      `json:"contracts"`
 	Grants    []c16Grant `json:"grants"`
@@ -95,6 +101,11 @@ func (w *c16World) freshActors(t *testing.T) {
 		w.privs = append(w.privs, p)
 		w.addrs = append(w.addrs, a)
 		w.ids[a.String()] = i
+	}
+}
+
+func (w *c16World) fundActors(t *testing.T) {
+	for _, a := range w.addrs {
 		if err := w.c.Fund(a, Unibi(1_000_000)); err != nil {
 			t.Fatal(err)
 		}
@@ -320,23 +331,39 @@ func (w *c16World) sudoers(t *testing.T) (int, []int) {
 }
 
 func (w *c16World) runCase(t *testing.T, cs *c16Case) []c16Obs {
+	w.freshActors(t)
+	cs.Root = ((cs.Root % nActors) + nActors) % nActors
+	for i := range cs.Contracts {
+		cs.Contracts[i] = ((cs.Contracts[i] % nActors) + nActors) % nActors
+	}
+	if cs.Genesis {
+		// a chain of its own, started from a genesis whose sudo section lists the contracts as given
+		raw := []string{}
+		for _, c := range cs.Contracts {
+			raw = append(raw, w.addr(c).String())
+		}
+		gs := sudotypes.GenesisState{Sudoers: sudotypes.Sudoers{Root: w.addr(cs.Root).String(), Contracts: raw}}
+		shared := w.c
+		w.c = NewChain(app.GenesisState{sudotypes.ModuleName: app.MakeEncodingConfig().Codec.MustMarshalJSON(&gs)})
+		defer func() { w.c = shared }()
+	}
 	c := w.c
 	c.BeginBlock(5 * time.Second)
 	defer c.EndBlock()
-	w.freshActors(t)
-	cs.Root = ((cs.Root % nActors) + nActors) % nActors
-	// sudoers as a validated genesis / an earlier edit would have stored them: sorted, duplicate-free
-	set := map[string]bool{}
-	for i := range cs.Contracts {
-		cs.Contracts[i] = ((cs.Contracts[i] % nActors) + nActors) % nActors
-		set[w.addr(cs.Contracts[i]).String()] = true
+	w.fundActors(t)
+	if !cs.Genesis {
+		// sudoers as an earlier edit would have stored them: sorted, duplicate-free
+		set := map[string]bool{}
+		for i := range cs.Contracts {
+			set[w.addr(cs.Contracts[i]).String()] = true
+		}
+		var contracts []string
+		for a := range set {
+			contracts = append(contracts, a)
+		}
+		sort.Strings(contracts)
+		c.App.SudoKeeper.Sudoers.Set(c.Ctx(), sudotypes.Sudoers{Root: w.addr(cs.Root).String(), Contracts: contracts})
 	}
-	var contracts []string
-	for a := range set {
-		contracts = append(contracts, a)
-	}
-	sort.Strings(contracts)
-	c.App.SudoKeeper.Sudoers.Set(c.Ctx(), sudotypes.Sudoers{Root: w.addr(cs.Root).String(), Contracts: contracts})
 	// authz grants through real MsgGrant transactions
 	for i := range cs.Grants {
 		g := &cs.Grants[i]
@@ -522,6 +549,9 @@ func genC16Case(r *Rng) c16Case {
 		}
 		cs.Grants = append(cs.Grants, g)
 	}
+	if r.Chance(22, 100) {
+		genesisPhases(r, &cs, sh)
+	}
 	nt := r.Range(3, 10)
 	for i := 0; i < nt; i++ {
 		tx := []c16Msg{}
@@ -538,6 +568,51 @@ func genC16Case(r *Rng) c16Case {
 		}
 	}
 	return cs
+}
+
+// genesisPhases: the sudoers come from a generated genesis (0-6 contracts in random order, duplicates,
+// root listed or not); every listed contract, the root and the strangers send gated ops of every
+// module before any edit, then after a root hand-over, then after an edit.
+func genesisPhases(r *Rng, cs *c16Case, sh *shadow) {
+	cs.Genesis = true
+	cs.Contracts = []int{}
+	n := r.Range(0, 6)
+	for i := 0; i < n; i++ {
+		cs.Contracts = append(cs.Contracts, r.Intn(nActors))
+	}
+	if r.Chance(1, 3) {
+		cs.Contracts = append(cs.Contracts, cs.Root)
+	}
+	sh.contracts = map[int]bool{}
+	for _, c := range cs.Contracts {
+		sh.contracts[c] = true
+	}
+	everybody := func() {
+		k := r.Intn(4)
+		for _, a := range perm(r, nActors) {
+			cs.Txs = append(cs.Txs, []c16Msg{{T: "gated", K: gkinds[(k+a)%4], Sender: a, V: r.Intn(1000)}})
+		}
+	}
+	everybody()
+	if r.Chance(2, 3) {
+		nr := r.Intn(nActors)
+		cs.Txs = append(cs.Txs, []c16Msg{{T: "root", Sender: sh.root, New: nr}})
+		if nr != sh.root {
+			sh.formerR = append(sh.formerR, sh.root)
+			sh.root = nr
+		}
+		everybody()
+	}
+	if r.Chance(2, 3) {
+		m := c16Msg{T: "edit", Action: []string{"add", "remove"}[r.Intn(2)], Sender: sh.root, Cs: []int{r.Intn(nActors)}}
+		cs.Txs = append(cs.Txs, []c16Msg{m})
+		if m.Action == "add" {
+			sh.contracts[m.Cs[0]] = true
+		} else {
+			delete(sh.contracts, m.Cs[0])
+		}
+		everybody()
+	}
 }
 
 func gated(k string, sender int) c16Msg { return c16Msg{T: "gated", K: k, Sender: sender, V: 7} }
@@ -557,6 +632,14 @@ func openers() []c16Case {
 		{Root: 0, Contracts: []int{1, 2}, Grants: []c16Grant{}, Txs: [][]c16Msg{
 			{gated("infl_edit", 1)}, {{T: "edit", Action: "remove", Sender: 0, Cs: []int{1}}}, {gated("infl_edit", 1)},
 			{gated("infl_edit", 2)}, {{T: "edit", Action: "remove", Sender: 2, Cs: []int{2}}}, {{T: "edit", Action: "add", Sender: 1, Cs: []int{1}}}}},
+		// sudoers imported from a genesis with an unsorted list with duplicates: listed means permitted
+		// before any edit, after a root hand-over (which writes the list back as read) and after an edit
+		{Genesis: true, Root: 0, Contracts: []int{5, 3, 1, 4, 3, 2}, Grants: []c16Grant{}, Txs: [][]c16Msg{
+			{gated("oracle", 5)}, {gated("infl_toggle", 3)}, {gated("infl_edit", 1)}, {gated("meta", 4)}, {gated("oracle", 2)},
+			{gated("meta", 0)}, {{T: "root", Sender: 0, New: 1}},
+			{gated("meta", 5)}, {gated("oracle", 3)}, {gated("infl_toggle", 1)}, {gated("infl_edit", 4)}, {gated("meta", 2)}, {gated("oracle", 0)},
+			{{T: "edit", Action: "remove", Sender: 1, Cs: []int{4}}},
+			{gated("meta", 5)}, {gated("oracle", 3)}, {gated("infl_toggle", 1)}, {gated("infl_edit", 4)}, {gated("meta", 2)}}},
 		// several removals in one message: every one of them must be gone afterwards
 		{Root: 0, Contracts: []int{1, 2, 3, 4}, Grants: []c16Grant{}, Txs: [][]c16Msg{
 			{{T: "edit", Action: "remove", Sender: 0, Cs: []int{1, 2}}}, {gated("oracle", 1)}, {gated("oracle", 2)},
